@@ -741,6 +741,8 @@ void op_SUBST_E(World& w, const Op& op)
 void op_SUBST_G(World& w, const Op&)
 {
    auto s = w.L().make_general_substitution();
+   if (w.gsubst_model.count(s))
+      w.findings.fail("C16:general:aliased", "make_general_substitution returned a substitution handed out before: bindings given to one appear in the other");
    w.record("make_general_substitution", Entity{Aux::Substitution, static_cast<const Substitution*>(s)}, Category_code::Unknown, true);
    w.gsubsts.push_back(s);
    w.gsubst_model[s];
@@ -784,10 +786,8 @@ void op_SUBST_BIND(World& w, const Op& op)
 }
 
 // -------------------------------------------------------------- statements --
-void op_BLOCK(World& w, const Op& op)
+static impl::Block* block_in(World& w, impl::Region* r, const Type* t)
 {
-   auto r = World::pick(w.regions, op.a);
-   const Type* t = opt_type(w, op.b, op.c);
    auto b = w.L().make_block(*r, as_opt(t));
    Rec& rec = w.record_node("make_block", *b, Category_code::Block);
    rec.exp("region", N(b->lexical_region)).exp("body", Val::list({})).exp("handlers", Val::list({})).exp("type", type_expect(t));
@@ -798,6 +798,44 @@ void op_BLOCK(World& w, const Op& op)
    w.add_stmt(stmt_handle(b));
    w.add_expr(*b, t != nullptr);
    w.note("make_block");
+   return b;
+}
+
+void op_BLOCK(World& w, const Op& op)
+{
+   auto r = World::pick(w.regions, op.a);
+   const Type* t = opt_type(w, op.b, op.c);
+   block_in(w, r, t);
+}
+
+void refresh_block(World& w, const BlockH& h);
+
+// A statement wrapped in 2..13 blocks, each created in the region of the one around it: deep nesting (and deep
+// indentation when printed) out of one op.
+void op_DEEP_BLOCK(World& w, const Op& op)
+{
+   if (w.stmts.empty()) return;
+   const Expr& innermost = static_cast<const Expr&>(*World::pick(w.stmts, op.c).stmt);
+   const int depth = 2 + op.a % 12;
+   impl::Region* r = World::pick(w.regions, op.b);
+   impl::Block* outer = nullptr;
+   impl::Block* prev = nullptr;
+   for (int d = 0; d < depth; ++d) {
+      impl::Block* b = block_in(w, r, nullptr);
+      if (!outer) outer = b;
+      if (prev) {
+         prev->add_stmt(*b);
+         refresh_block(w, w.blocks[w.blocks.size() - 2]);
+         w.findings.count("member_additions");
+      }
+      prev = b;
+      r = &b->lexical_region;
+   }
+   prev->add_stmt(innermost);
+   refresh_block(w, w.blocks.back());
+   w.findings.count("member_additions");
+   w.findings.count("deep_block_nests");
+   w.note("deep block nest of " + std::to_string(depth));
 }
 
 void refresh_block(World& w, const BlockH& h)
@@ -1160,7 +1198,7 @@ void register_expr_ops(std::vector<OpInfo>& t)
    R(WHERE_FILL, G_FILL); R(INSTANTIATION, G_EXPR); R(INST_FILL, G_FILL); R(ID_EXPR_N, G_EXPR); R(ID_EXPR_D, G_EXPR); R(LABEL_X, G_EXPR);
    R(XLIST, G_EXPR); R(XLIST_PUSH, G_MEMBER); R(MAPPING, G_EXPR); R(MAP_FILL, G_FILL); R(PLIST_ADD, G_MEMBER); R(LAMBDA, G_EXPR); R(LAMBDA_FILL, G_FILL);
    R(REQUIRES, G_EXPR); R(REQ_PUSH, G_MEMBER); R(ASM, G_EXPR); R(STATIC_ASSERT, G_EXPR);
-   R(SUBST_E, G_SUBST); R(SUBST_G, G_SUBST); R(SUBST_BIND, G_SUBST);
+   R(SUBST_E, G_SUBST); R(SUBST_G, G_SUBST); R(SUBST_BIND, G_SUBST); R(DEEP_BLOCK, G_HARNESS);
    R(BLOCK, G_STMT); R(ADD_STMT, G_MEMBER); R(NEW_HANDLER, G_MEMBER); R(EXPR_STMT, G_STMT); R(RETURN, G_STMT); R(GOTO, G_STMT); R(LABELED, G_STMT);
    R(IF, G_STMT); R(SWITCH, G_STMT); R(WHILE, G_STMT); R(DO, G_STMT); R(CTRL_FILL, G_FILL); R(FOR, G_STMT); R(FOR_FILL, G_FILL); R(FOR_IN, G_STMT);
    R(FOR_IN_FILL, G_FILL); R(BREAK, G_STMT); R(CONTINUE, G_STMT); R(JUMP_FILL, G_FILL); R(CTOR_BODY, G_STMT); R(ID_EXPR_FILL, G_FILL); R(CLASSIC_IMPL, G_FILL);
